@@ -27,6 +27,7 @@ import (
 	"google.golang.org/protobuf/internal/filedesc"
 	"google.golang.org/protobuf/internal/strs"
 	fuzzpb "google.golang.org/protobuf/internal/testprotos/editionsfuzztest"
+	testeditionspb "google.golang.org/protobuf/internal/testprotos/testeditions"
 	"google.golang.org/protobuf/proto"
 	"google.golang.org/protobuf/reflect/protoreflect"
 	"google.golang.org/protobuf/reflect/protoregistry"
@@ -479,6 +480,15 @@ func featWitnesses(c *C) {
 		Enums: []*AEnum{{Name: "F", Values: []*AEnumValue{{Name: "F_V0", Number: 1, HasNumber: true}}}},
 	}
 	featCase(c, a)
+	// behavioural witness of the refuted obligation C38.runtime_utf8: invalid UTF-8 in a string EXTENSION of an editions
+	// file (utf8_validation = VERIFY by default) vs in a string FIELD with the same number
+	bad := []byte{0x72, 0x02, 0xff, 0xfe} // field 14, "\xff\xfe"
+	in := replayIn{Kind: "pair", Msg: "utf8-extension", Wire: vhHex(bad)}
+	c.Case("utf8-extension-witness", true)
+	errField := proto.Unmarshal(bad, &testeditionspb.TestAllTypes{})
+	chk(c, errField != nil, "invalid UTF-8 accepted in the editions string FIELD testeditions.TestAllTypes.optional_string", in, "")
+	errExt := proto.Unmarshal(bad, &testeditionspb.TestAllExtensions{})
+	chk(c, errExt != nil, "invalid UTF-8 accepted in the editions string EXTENSION testeditions.optional_string (bytes 7202fffe): proto.Unmarshal returns nil", in, sigExtUTF8)
 }
 
 // ---------- stream B: proto2/proto3 vs editions pairs ----------
